@@ -35,6 +35,10 @@ def fill_grid():
     for P, Q, E, p in itertools.product([F(1), F(2), F(3)], [F(1), F(2), F(3)], [F(5), F(10)], [F(4), F(10), F(12)]):
         pts.append({"P": P, "Q": Q, "E": E, "p": p, "f": F(1, 100), "Wt": F(1000), "T": F(0), "cp": F(9), "lev": F(2),
                     "now": F(60000)})
+    # a wallet that a realised loss plus the fee takes below zero (an all-in position closed at a loss): the reference account simply
+    # books the loss - "a wallet cannot be negative" clamps would hide part of it
+    for P, Q, E, p in ((F(2), F(2), F(10), F(4)), (F(2), F(1), F(10), F(4)), (F(1), F(2), F(5), F(12)), (F(3), F(3), F(5), F(12)), (F(2), F(3), F(10), F(4))):
+        pts.append({"P": P, "Q": Q, "E": E, "p": p, "f": F(1, 100), "Wt": F(1), "T": F(0), "cp": F(9), "lev": F(2), "now": F(60000)})
     return pts
 
 
